@@ -97,6 +97,9 @@ func runOverlayTestArgs(w *World, pkg *ssa.Package, testSrc string, timeout time
 	cmd.Stdout = &out
 	cmd.Stderr = &out
 	err = cmd.Run()
+	if strings.Contains(out.String(), "[build failed]") {
+		fmt.Fprintln(os.Stderr, "WARNING: replay harness did not build:", truncate(out.String(), 600))
+	}
 	return out.String(), err
 }
 
@@ -190,6 +193,30 @@ func apiPool(w *World, pkg *ssa.Package, extra []string) []string {
 				add(b + sep + k)
 				add(b + sep + k + "1")
 			}
+		}
+	}
+	// shorthand operators glued to short versions (boundary arities)
+	for _, op := range []string{"^", "~", "~>", "~>", "~=", ">=", "<=", "<", ">", "=", "==", "!=", "[", "(", "*", ""} {
+		for _, v := range []string{"0", "1", "0.0", "0.1", "0.0.0", "0.0.1", "1.2", "1.2.3", "x", "1.x", "*"} {
+			add(op + v)
+			add(op + " " + v)
+		}
+	}
+	// letter-case variants of test literals
+	for _, s := range tests {
+		if len(s) == 0 || len(s) > 24 {
+			continue
+		}
+		up := []byte(s)
+		changed := false
+		for i := 0; i < len(up); i++ {
+			if up[i] >= 'a' && up[i] <= 'z' && (i == 0 || !(up[i-1] >= 'a' && up[i-1] <= 'z' || up[i-1] >= 'A' && up[i-1] <= 'Z')) {
+				up[i] -= 32
+				changed = true
+			}
+		}
+		if changed {
+			add(string(up))
 		}
 	}
 	// zero-padded variants of test literals
@@ -326,7 +353,7 @@ func lawHarness(w *World, fn *ssa.Function, cl *Clause, alpha string, maxLen int
 			pool = append(pool, v)
 		}
 	}
-	if %s && len(pool) > 420 { step := len(pool)/420 + 1; var nx []*Version; for i := 0; i < len(pool); i += step { nx = append(nx, pool[i]) }; pool = nx }
+	if %s && len(pool) > 700 { step := len(pool)/700 + 1; var nx []*Version; for i := 0; i < len(pool); i += step { nx = append(nx, pool[i]) }; pool = nx }
 	cmp := func(a, b *Version) int { return a.Compare(b) }
 	show := func(a *Version) string { return fmt.Sprintf("%%q", a.String()) }
 `
@@ -370,7 +397,7 @@ func lawHarness(w *World, fn *ssa.Function, cl *Clause, alpha string, maxLen int
 				short = append(short, s)
 			}
 		}
-		short = append(short, "0", "1", "2", "9", "10", "01", "007", "a", "b", "rc", "-5", "+5", "99999999999999999999", "00000000000000000000001", "18446744073709551616", "~", "~a", "z")
+		short = append(short, "0", "1", "2", "9", "10", "01", "007", "a", "b", "rc", "-5", "+5", "99999999999999999999", "00000000000000000000001", "18446744073709551616", "~", "~a", "z", "alpha", "Alpha", "beta", "Beta", "rc", "RC", "x", "X", "beta.1", "Beta.1", "rc.1.a", "rc.1.b")
 		short = append(short, extraPool...)
 		if len(short) > 90 {
 			short = short[:90]
@@ -833,6 +860,20 @@ func cliFalsifier(w *World, fn *ssa.Function, r vcResult) *Counterexample {
 				}
 			}
 		}
+		for _, a := range vs[:len(vs)-1] {
+			for _, extra := range []string{"", "%d", "%s%%"} {
+				n++
+				arg := a + extra
+				if _, ok := ec.cmp(arg, arg); !ok {
+					continue
+				}
+				out, code := call(ec.name, "sort", arg)
+				if code != 0 || out != fmt.Sprintf("%q\n", arg) {
+					fmt.Printf("VERIF-CX univers %s sort %q printed %q (exit %d), want the quoted input on one line\n", ec.name, arg, out, code)
+					return
+				}
+			}
+		}
 		if out, code := call(ec.name); code != 1 || strings.Count(out, "\n") != 1 {
 			fmt.Printf("VERIF-CX univers %s (no command): exit %d output %q\n", ec.name, code, out)
 			return
@@ -1027,7 +1068,7 @@ func TestVerifReplay(t *testing.T) {
 			if (v == nil) == (err == nil) {
 				fmt.Printf("VERIF-CX NewVersion(%%q) returned value=%%v err=%%v (want exactly one)\n", s, v != nil, err)
 			}
-			if err == nil && len(vs) < 150 {
+			if err == nil && len(vs) < 400 {
 				vs = append(vs, v)
 			}
 		}) {
@@ -1038,19 +1079,22 @@ func TestVerifReplay(t *testing.T) {
 			if (r == nil) == (err == nil) {
 				fmt.Printf("VERIF-CX NewVersionRange(%%q) returned value=%%v err=%%v (want exactly one)\n", s, r != nil, err)
 			}
-			if err == nil && len(rs) < 150 {
+			if err == nil && len(rs) < 2000 {
 				rs = append(rs, r)
 			}
 		}) {
 			return
 		}
 	}
-	for _, a := range vs {
+	for i, a := range vs {
 		for _, b := range vs {
 			n++
 			if !try("Compare", a.String()+" vs "+b.String(), func() { _ = a.Compare(b) }) {
 				return
 			}
+		}
+		if i%%8 != 0 && i > 40 {
+			continue
 		}
 		for _, r := range rs {
 			n++
@@ -1107,10 +1151,16 @@ func TestVerifReplay(t *testing.T) {
 			rs = append(rs, r)
 		}
 	}
-	// sequential reference results
+	// sequential reference results, computed on separate copies so that the shared values are still fresh
+	// (never used) when the goroutines start
+	var copies []*Version
+	for _, v := range vs {
+		c, _ := e.NewVersion(v.String())
+		copies = append(copies, c)
+	}
 	ref := map[string]int{}
-	for i, a := range vs {
-		for j, b := range vs {
+	for i, a := range copies {
+		for j, b := range copies {
 			ref[fmt.Sprint(i, ",", j)] = a.Compare(b)
 		}
 	}
